@@ -519,8 +519,9 @@ def run(tier, rep):
         miri.run({"truncation": corpus}, [], rep)
     args = [{"shard": 0, "tier": tier, "layer": "sites"}, {"shard": 1, "tier": tier, "layer": "e2e"}]
     if tier == "thorough":
-        args += [{"shard": 0, "tier": tier, "layer": "sites", "memcheck": True}, {"shard": 1, "tier": tier, "layer": "e2e", "memcheck": True}]
-    for res in sandbox.run_many("vf.props.c13", "worker", args, workers=4, timeout=3000):
+        # the memcheck slices run the quick-tier workload (valgrind costs 25-50x; the thorough workload under it outlived the watchdog)
+        args += [{"shard": 0, "tier": "quick", "layer": "sites", "memcheck": True}, {"shard": 1, "tier": "quick", "layer": "e2e", "memcheck": True}]
+    for res in sandbox.run_many("vf.props.c13", "worker", args, workers=4, timeout=3000 if tier == "quick" else 6000):
         rep.merge_worker(res)
     iargs = [{"shard": i, "tier": tier, "threads": 8, "burst": 12, "rounds": 30 if tier == "quick" else 600, "actor_delays": i % 4 != 3, "rt_threads": [2, 4][i % 2]} for i in range(2 if tier == "quick" else 8)]
     for res in sandbox.run_many("vf.props.c13", "impatient_clients", iargs, workers=len(iargs), timeout=1500 if tier == "quick" else 9000):
